@@ -463,7 +463,9 @@ func structureBombs(r *vh.Run) {
 		objPad, xrefPad int
 	}
 	big := r.Pick(6<<20, 48<<20)
-	bombsL := []bomb{{"objstm", big, 0}, {"xrefstm", 0, big}, {"objstm", 200 << 10, 0}, {"xrefstm", 0, 200 << 10}, {"none", 0, 0}}
+	// "none" runs first: its allocation under each limit is the baseline for "was the bomb materialised?"
+	bombsL := []bomb{{"none", 0, 0}, {"objstm", big, 0}, {"xrefstm", 0, big}, {"objstm", 200 << 10, 0}, {"xrefstm", 0, 200 << 10}}
+	base := map[int64]int64{}
 	limits := []int64{16 << 10, 64 << 10, 1 << 20, 512 << 20}
 	for _, bm := range bombsL {
 		doc := genStructureBomb(bm.objPad, bm.xrefPad)
@@ -500,12 +502,26 @@ func structureBombs(r *vh.Run) {
 			}
 			in["total_alloc"], in["peak_heap"] = rep.TotalAlloc, rep.PeakHeap
 			r.Count("structure-bomb:" + bm.name)
+			if bm.name == "none" {
+				base[lim] = int64(rep.TotalAlloc)
+			}
+			// the whole decoded stream was buffered (bytes.Buffer growth allocates at least its final size)
+			materialised := int64(rep.TotalAlloc) >= base[lim]+decoded
 			switch {
 			case rep.Panic != "":
 				r.OracleFail("panic:structure-bomb", in, rep.Panic)
-			case decoded > lim && rep.Err == "" && bm.name == "xrefstm":
-				// known defect: read.go xRefStreamDict decodes with saveDecodedStreamContent(nil, ...) -> default limit
-				r.OracleFail("xrefstm-decode-ignores-configured-limit", in, fmt.Sprintf("read succeeded although the xref stream decodes to %d bytes under MaxDecodeBytes = %d (%d bytes allocated): xRefStreamDict calls saveDecodedStreamContent(nil, ...), decodeLimit(nil) is the 512 MiB default", decoded, lim, rep.TotalAlloc))
+			case bm.name == "xrefstm" && decoded > lim && materialised:
+				// defect fixed in pdfcpu dd3ad7ed: xRefStreamDict decoded with saveDecodedStreamContent(nil, ...) -> default limit
+				r.OracleFail("xrefstm-decode-ignores-configured-limit", in, fmt.Sprintf("the xref stream (%d decoded bytes) was decoded in full under MaxDecodeBytes = %d: %d bytes allocated (baseline %d), err=%q", decoded, lim, rep.TotalAlloc, base[lim], rep.Err))
+			case bm.name == "xrefstm" && decoded > lim:
+				// rejected; the limit error of the xref stream starts the xref repair (parseXRefStreamOrRepair),
+				// so the final result is the repair's (here: its own error, the objects live in an object stream)
+				if rep.LimitErr {
+					r.Count("xrefstm-bomb:limit-error")
+				} else {
+					r.Count("xrefstm-bomb:limit-error-masked-by-xref-repair")
+				}
+				r.OracleOK()
 			case decoded > lim && rep.Err == "":
 				r.OracleFail(bm.name+"-bomb-not-rejected", in, fmt.Sprintf("read succeeded although the %s stream decodes to %d bytes under MaxDecodeBytes = %d", bm.name, decoded, lim))
 			case decoded > lim && !rep.LimitErr:
